@@ -233,3 +233,11 @@ package ptracer
 //@   ensures @C09 @C15 int(result.Status) == 8 ==> len(result.Error) > 0
 //@   callsite Start: assert @C03 TH.locked
 //@   callsite (*Tracer).trace: assert @C03 TH.locked && pgid == caller_pgid
+
+// the cancellation goroutine of trace: when the (derived) context ends, the whole process group of the
+// target is killed - the same kill the deferred clean-up issues
+//@ func ptracer.(*Tracer).trace$1 props C12
+//@   arith bv
+//@   requires cc != nil
+//@   assigns T.kill_count, T.kill_last_pid, T.kill_last_sig
+//@   ensures T.kill_count == old(T.kill_count) + 1 && T.kill_last_pid == -pgid && T.kill_last_sig == 9
